@@ -91,7 +91,8 @@ Section Script.
     end.
 
   Record roles := mkRoles { r_main : nat; r_c1 : option nat; r_c2 : option nat; r_dp : option nat;
-                            r_pk : option nat; r_cl : option nat; r_sa : nat; r_sb : nat }.
+                            r_pk : option nat; r_cl : option nat; r_sa : nat; r_sb : nat;
+                            r_tw : option nat }.   (* a second, INDEPENDENT by-id handle of the same job in the same session *)
 
   Definition new_sp (i : input_C04) : json :=
     match spec_new (i_route i) (i_old i) with Some v => v | None => i_old i end.
@@ -114,12 +115,14 @@ Section Script.
       end in
     (* 3. the handle the operation goes through *)
     let oid := calc_id frepr old in
-    let '(o3, hm, nh, ns) :=
+    (* a handle obtained by id gets a twin: the same open_job(id=...) once more on the same Project object (both are
+       served from - or will read through - the same entry of the Project's state point cache) *)
+    let '(o3, hm, tw, nh, ns, sid) :=
       match i_prov i with
-      | PInit | PUninit => ([], 0, nh, 2)
-      | PSpFresh => ([(0, OOpenSp 0 old)], nh, S nh, 2)
-      | PIdCached => ([(0, OOpenId 0 oid)], nh, S nh, 2)
-      | PIdFresh => ([(0, ONewSession PA); (0, OOpenId 2 oid)], nh, S nh, 3)
+      | PInit | PUninit => ([], 0, None, nh, 2, 0)
+      | PSpFresh => ([(0, OOpenSp 0 old)], nh, None, S nh, 2, 0)
+      | PIdCached => ([(0, OOpenId 0 oid); (0, OOpenId 0 oid)], nh, Some (S nh), S (S nh), 2, 0)
+      | PIdFresh => ([(0, ONewSession PA); (0, OOpenId 2 oid); (0, OOpenId 2 oid)], nh, Some (S nh), S (S nh), 3, 2)
       end in
     let o4 := if i_access i then [(0, OSp hm)] else [] in
     (* 5. copies: independent ones first (pickling a handle that has a shallow copy recurses) *)
@@ -142,7 +145,10 @@ Section Script.
       end in
     let follow := match i_route i with RMoveEdit p a => [(4, OEdit hm p a)] | _ => [] end in
     let cl := if clone_expected i then Some nh else None in
-    let o9 := obs_ops 0 (Some hm) ++ obs_ops 1 c1 ++ obs_ops 2 c2 ++ obs_ops 3 dp ++ obs_ops 4 pk ++ obs_ops 5 cl in
+    let o9 := obs_ops 0 (Some hm) ++ obs_ops 1 c1 ++ obs_ops 2 c2 ++ obs_ops 3 dp ++ obs_ops 4 pk ++ obs_ops 5 cl
+              ++ obs_ops 6 tw in
+    (* ... and at the very end the old id is opened once more on that Project object *)
+    let o14 := match tw with Some _ => [(42, OOpenId sid oid)] | None => [] end in
     let o10 := [(0, ONewSession PA); (40, OIds ns); (0, ONewSession PB); (41, OIds (S ns))] in
     (* documents: of the handle, of the clone, and (for re-key routes, where they must follow) of the shallow copies *)
     let o11 := doc_ops 0 (Some hm)
@@ -150,8 +156,8 @@ Section Script.
                ++ doc_ops 5 cl in
     let o13 := init_ops dp ++ init_ops pk in
     (o1 ++ o2 ++ o3 ++ o4 ++ o5a ++ o5b ++ o5c ++ o6 ++ [(1, OTree); (2, main)] ++ follow ++ [(3, OTree)] ++ o9 ++ o10 ++ o11
-        ++ [(60, OTree)] ++ o13 ++ [(70, OTree)],
-     mkRoles hm c1 c2 dp pk cl ns (S ns)).
+        ++ [(60, OTree)] ++ o13 ++ [(70, OTree)] ++ o14,
+     mkRoles hm c1 c2 dp pk cl ns (S ns) tw).
 
   (* ------------------------------------------------------------------ reading the observations *)
   Fixpoint out_at (tag : nat) (sc : list (nat * op)) (outs : list oval) : option oval :=
@@ -206,6 +212,7 @@ Section Script.
                           | 3 => match r_dp ro with Some _ => true | None => false end
                           | 4 => match r_pk ro with Some _ => true | None => false end
                           | 5 => match r_cl ro with Some _ => true | None => false end
+                          | 6 => match r_tw ro with Some _ => true | None => false end
                           | _ => true end in
     (* handle k shows job (i', p', sp') *)
     let shows (k : nat) (cached : bool) (i' : str) (p' : path) (sp' : json) :=
@@ -241,7 +248,19 @@ Section Script.
     let pre_shows (k : nat) :=
       negb (has k) || (is_idpath (at_ (80 + 2 * k)) oid src && is_json (at_ (81 + 2 * k)) old) in
     let pre_ok := negb (i_pre i) || (pre_shows 0 && pre_shows 1 && pre_shows 2) in
-    let common := pre_ok && ids_ok && independent 3 && independent 4 && indep_usable
+    (* the twin is an independent handle: it need not follow, but whatever state point it (or a new open_job(id=old id)
+       on its Project) shows must hash to the id it shows; it may also fail to load once the job has moved away *)
+    let hashes_or_exn (o : option oval) :=
+      match o with Some (VJson x) => str_eqb (calc_id frepr x) oid | Some (VExn _) => true | _ => false end in
+    let twin_ok :=
+      negb (has 6) ||
+      (is_idpath (at_ 28) oid src && hashes_or_exn (at_ 29) && hashes_or_exn (at_ 30)
+       && match at_ 42 with
+          | Some (VStr x) => str_eqb x oid
+          | Some (VExn EKeyError) => negb (isdir_t final src)
+          | _ => false
+          end) in
+    let common := pre_ok && twin_ok && ids_ok && independent 3 && independent 4 && indep_usable
                   && (uninit || tree_same_except (if m_shallow m then [src] else []) post post2) in
     match i_route i with
     | RMove =>
